@@ -453,6 +453,8 @@ async fn evict_task_inner(send: mpsc::Sender<Message>, options: Options) -> Resu
         let snapshot = rx.await.std_context("failed to get snapshot")?;
         #[cfg(feature = "verif-hooks")]
         crate::verif_hooks::event("signedpackets.evict.snapshot", &[]);
+        #[cfg(feature = "verif-hooks")]
+        crate::verif_hooks::pause("signedpackets.evict.after_snapshot");
 
         let expired =
             Timestamp::from_micros(Timestamp::now().as_micros().saturating_sub(expiry_us));
